@@ -9,6 +9,15 @@ use crate::Monitor;
 use std::collections::BTreeMap;
 use std::sync::Mutex;
 
+pub fn monitor_c2v() -> Monitor { Monitor { id: "XC2V", rule: "reference data generator", assumptions: &[], run: run_c2v, replay: |_, _| {} } }
+fn run_c2v(ctx: &mut Ctx, extra: &mut BTreeMap<String, String>) {
+  let mut out = Vec::new();
+  for depth in 0..=10u8 { let mut m = 0.0f64; let nb = 1u64 << (2 * depth);
+    for d0 in [0u64, 4].iter() { for k in 0..nb { let h = d0 * nb + k; let c = ref_center(depth, h); for v in ref_vertices(depth, h).iter() { let d = dist(*v, c); if d > m { m = d; } } ctx.eval(); } }
+    out.push(format!("[{}, {:e}, {}]", depth, m, m * nside(depth) as f64)); }
+  ctx.hard("x", &[1]); ctx.hard("x", &[2]);
+  extra.insert("c2v".into(), format!("[{}]", out.join(", ")));
+}
 pub fn monitor() -> Monitor { Monitor { id: "XBSD", rule: "reference data generator", assumptions: &[], run, replay: |_, _| {} } }
 
 /// point of an edge of cell h: edge k (0: S->E, 1: E->N, 2: N->W, 3: W->S), t in [0,1]
